@@ -94,6 +94,8 @@ def scrypt_tasks(quick):
         for i in range(len(_SCRYPT_BIG_T)):
             T.append((_SCRYPT_BIG_T[i][0] * 0.1, ("scrypt-big2", i)))
     T.append((0.3, ("scrypt-lens",)))
+    T.append((0.4, ("scrypt-rsweep",)))
+    T.append((0.5, ("carriers",)))
     T.append((0.3, ("scrypt-big", quick)))
     T.append((0.5, ("scrypt-refuse",)))
     return T
@@ -207,6 +209,60 @@ def t_scrypt_grid(t, acc):
                 check_scrypt(pw, salt, kl, N, r, p, nk, acc)
     acc.sample({"part": "scrypt", "N": N, "r": r, "p": list(SCRYPT_P), "key_len": list(SCRYPT_KL),
                 "num_keys": [1, 2, 3, 4]})
+
+
+def t_scrypt_rsweep(t, acc):
+    """every block-size parameter r = 1..16 (not only the powers of two of the RFC vectors) at small N"""
+    pw, salt = mk(("asc", 9)), mk(("seed", 16), "scrypt-salt")
+    for r in range(1, 17):
+        for (N, p) in ((2, 1), (4, 2), (16, 1)):
+            check_scrypt(pw, salt, 33, N, r, p, 1, acc)
+    acc.count("scrypt/rsweep", 16 * 3)
+
+
+def t_carriers(t, acc):
+    """password / salt / key material handed over as bytes, bytearray and memoryview (all documented): the same result, the
+    caller's buffer unchanged, and the same result again when the SAME buffer is used for a second call"""
+    from Crypto.Protocol import KDF
+    from Crypto.Hash import SHA256, SHA1, HMAC
+    pw0, salt0 = b"carrier password", b"carrier salt 16B"
+    h4 = KDF.bcrypt(pw0, 4, salt=salt0)
+    calls = {
+        "PBKDF2": lambda pw, sa: KDF.PBKDF2(pw, sa, 24, 3, hmac_hash_module=SHA256),
+        "PBKDF2-generic": lambda pw, sa: KDF.PBKDF2(pw, sa, 24, 3, prf=lambda k, d: HMAC.new(k, d, SHA1).digest()),
+        "PBKDF1": lambda pw, sa: KDF.PBKDF1(pw, sa[:8], 16, 3, SHA1),
+        "HKDF": lambda pw, sa: KDF.HKDF(pw, 24, sa, SHA256, context=b"ctx"),
+        "scrypt": lambda pw, sa: KDF.scrypt(pw, sa, 24, 4, 2, 1),
+        "bcrypt": lambda pw, sa: KDF.bcrypt(pw, 4, salt=sa),
+        "bcrypt_check": lambda pw, sa: KDF.bcrypt_check(pw, h4),
+        "SP800_108_Counter": lambda pw, sa: KDF.SP800_108_Counter(pw, 24, lambda k, d: HMAC.new(k, d, SHA256).digest(), label=b"lab", context=b"ctx"),
+    }
+    for name, fn in calls.items():
+        base = run_lib(lambda: fn(pw0, salt0))
+        if base[0] == "exc":
+            raised(acc, "C12/carriers/" + name, "%s with bytes arguments" % name, {"part": "carriers", "name": name}, base[1])
+            continue
+        for carrier in ("bytearray", "memoryview"):
+            bufs = [bytearray(pw0), bytearray(salt0)]
+            args = bufs if carrier == "bytearray" else [memoryview(b) for b in bufs]
+            for call in (1, 2, 3):
+                acc.count("evaluations")
+                r = run_lib(lambda: fn(*args))
+                what = "%s with its password and salt in a %s, call %d with the same buffers" % (name, carrier, call)
+                case = {"part": "carriers", "name": name}
+                if r[0] == "exc":
+                    raised(acc, "C12/carriers/%s" % name, what, case, r[1])
+                    break
+                if r[1] != base[1]:
+                    acc.violation("C12/carriers/%s/result-depends-on-argument-type-or-call-count" % name,
+                                  "%s gives %s, with bytes arguments it gives %s" % (what, short(r[1]), short(base[1])), case)
+                    break
+                if bytes(bufs[0]) != pw0 or bytes(bufs[1]) != salt0:
+                    acc.violation("C12/carriers/%s/caller-buffer-changed" % name,
+                                  "%s changed its caller's buffer: password %s, salt %s" % (what, short(bytes(bufs[0])), short(bytes(bufs[1]))), case)
+                    break
+        acc.seen("classes", ("carriers", name))
+    acc.count("carriers/functions", len(calls))
 
 
 def t_scrypt_lens(t, acc):
